@@ -99,3 +99,20 @@ PROPS["C13"] = dict(
     exhaustive_axes="offsets -80..+80 for every overlap-tolerant API; lengths 0..1280 for exact aliasing",
     assumptions=ASSUME_COMMON + ["key / nonce / ad / message contents come from a splitmix64 stream seeded by VERIF_SEED"],
 )
+
+PROPS["C02"] = dict(
+    name="c02", sources=["props/c02.cpp"], engine="enumerator",
+    builds=[("asan", "native")],
+    builds_thorough=[("asan", "native"), ("asan", "noasm"), ("asan", "portable")],
+    level="exploration",
+    rule=("For each of the verifying APIs (6 AEADs x {decrypt, decrypt verify-only (m=NULL), decrypt_detached, detached verify-only} + AES-256-GCM afternm, secretbox open_easy/open_detached in both "
+          "ciphers + NaCl form, box open_easy/open_detached/afternm forms/NaCl forms/seal_open in both ciphers, secretstream pull, crypto_auth x4 and crypto_onetimeauth verify, crypto_sign_open, "
+          "verify_detached, Ed25519ph final_verify) a valid tuple is built with the library for message lengths {0,1,15,16,17,31,32,33,63,64,65,96} (every bit of every tamperable field flipped) and "
+          "{127,128,129,255,256,257,600} (256 sampled bit positions per field), then tampered: single-bit flip, truncation of each variable-length field to every shorter length (incl. below the tag size), "
+          "extension by 1/2/15/16/17 bytes, field swapped in from an independent valid tuple. Oracle: return != 0, reported length 0, secretstream tag 0xff, every output byte equals the pre-fill or one "
+          "constant filler byte (same value across independent keys/messages), no 8-byte window of the true plaintext in the output (ASan-poisoned exact buffers); the untampered tuple must verify and "
+          "return the message. Excluded as spec-defined don't-care bits: the 22 clamped bits of the Poly1305 r key half, the 16-byte NaCl zero prefix; asymmetric key pairs are not flipped. "
+          "AEGIS/AES-GCM are additionally run with AES-NI masked off (soft AES). Non-trivial = a tampering that changes at least one bit or the length; distinct = (API, mlen, tamper kind, field, position, mask)."),
+    exhaustive_axes="every bit of every tamperable field for messages <= 96 bytes; every truncation length",
+    assumptions=ASSUME_COMMON + ["a random tamper verifies with probability <= 2^-100 (cryptographic assumption)", "valid tuples are produced by the library's own encrypt/sign functions (their conformance is C01/C04/C06)"],
+)
